@@ -8,7 +8,7 @@ from pv.gen import strings, texts, trees
 from pv.gen import corpus
 from pv.harness import Enum, Fuzz, Hyp
 from pv.props.c08 import split_keepends
-from pv.props.common import short
+from pv.props.common import debug_logging, short
 from pv.ref import lex as rlex
 from pv.ref import parse as rparse
 
@@ -101,6 +101,10 @@ def check(case):
     f = []
     if case.get('repeat'):
         s = s * case['repeat']
+    if case.get('debug'):
+        # same contract with the penman logger at DEBUG (penman -vvv)
+        with debug_logging():
+            return [(k + '@debug-logging', d) for k, d in check(dict(case, debug=False, repeat=0, s=s))]
     if case.get('only') == 'graph':
         _check_graph(s, f)
     elif case.get('only') == 'triples':
@@ -148,6 +152,9 @@ def classes(case):
     if case.get('depth'): out.append('deep:%d' % (case['depth'] // 50 * 50))
     if case.get('repeat'): out.append('repeated>=100' if case['repeat'] >= 100 else 'repeated')
     if '#' in case['s']: out.append('has-comment')
+    if case.get('debug'): out.append('debug-logging')
+    if case['s'][:1] == '\ufeff': out.append('starts-with-U+FEFF')
+    if any(ord(c) > 127 and c.isdigit() for c in case['s']): out.append('non-ascii-digit')
     return out
 
 
@@ -200,7 +207,13 @@ def _random(draw):
             if draw(st.integers(0, 2)) > 0:
                 toks = draw(texts.mutated(toks))
             parts.append(draw(texts.spaced(toks)))
-        return {'s': draw(st.sampled_from(['\n\n', '\n', ' ', ''])).join(parts)}
+        s = draw(st.sampled_from(['\n\n', '\n', ' ', ''])).join(parts)
+        if draw(st.integers(0, 11)) == 0:
+            s = draw(st.sampled_from(FIRST_CHARS)) + s
+        out = {'s': s}
+        if draw(st.integers(0, 7)) == 0:
+            out['debug'] = True
+        return out
     if c == 6:
         d = draw(st.integers(50, 200))
         j = draw(trees.any_trees(depth=d))
@@ -245,6 +258,58 @@ def _stratom_cases(ch):
             if k:
                 c['k'] = k
             yield c
+
+
+ALIGN_ALPHA = ['~', '1', ',', '\u0663', 'e', '.', 'a', '\u00e9', 'Z']
+ALIGN_TEMPLATES = ['(a :r b%s)', '(a :r%s b)', '(a / b%s :r c)', 'r(a, b%s)']
+
+
+def _alatom_chunks(tier):
+    return [{'t': i, 'L': 4 if tier == 'quick' else 6} for i in range(len(ALIGN_TEMPLATES))]
+
+
+def _alatom_cases(ch):
+    tpl = ALIGN_TEMPLATES[ch['t']]
+    for ch2 in strings.prefix_chunks(ALIGN_ALPHA, ch['L'], 1):
+        for x in strings.strings_of(ch2, ALIGN_ALPHA, ch['L'], 1):
+            c = {'s': tpl % x}
+            if tpl.startswith('r('):
+                c['k'] = 'triples'
+            yield c
+
+
+# characters that are NOT among the six blanks the lexer skips, at the places where an "ignorable" character would be dropped
+FIRST_CHARS = ['\ufeff', '\xa0', '\u3000', '\u2028', '\x85', '\x1c', '\u200b', '\ufffe', '\x00', '\x0b', '\x0c', '\t', '\r', '\u0663']
+FIRST_TEXTS = ['(a / b)', ' (a b)', '# ::id 1\n(a / b)', '(a :r b)\n(c / d)', 'role(a, b)', 'instance(a, b) ^ r(a, c)', '', '()', '(a :r "s")', '(a', ':r']
+
+
+def _first_chunks(tier):
+    return [{'c': i} for i in range(len(FIRST_CHARS))]
+
+
+def _first_cases(ch):
+    c = FIRST_CHARS[ch['c']]
+    for t in FIRST_TEXTS:
+        variants = {c + t, t + c, c + ' ' + t, t.replace('\n', '\n' + c), t.replace(' ', c, 1), t.replace(')', c + ')', 1), c + c + t}
+        for s in sorted(variants):
+            for dbg in (False, True):
+                yield dict({'s': s}, **({'debug': True} if dbg else {}))
+
+
+def _debug_chunks(tier):
+    return [{'first': a} for a in range(len(VOCAB))]
+
+
+def _debug_cases(ch):
+    import itertools
+    a = VOCAB[ch['first']]
+    for l in range(0, 4):
+        for tup in itertools.product(VOCAB, repeat=l):
+            yield {'s': ' '.join((a,) + tup), 'debug': True}
+    b = TVOCAB[ch['first']]
+    for l in range(0, 3):
+        for tup in itertools.product(TVOCAB, repeat=l):
+            yield {'s': ' '.join((b,) + tup), 'k': 'triples', 'debug': True}
 
 
 def _fuzz_decode(data):
@@ -292,6 +357,14 @@ def stages(tier):
         Enum('string-atoms', _stratom_chunks, _stratom_cases,
              'every string of length <= 5 (quick) / 7 (thorough) over quote, backslash, a, blank, n placed as target, concept, bare text and '
              'conjunction target (terminated, unterminated, escaped quotes and backslashes in every position)'),
+        Enum('alignment-atoms', _alatom_chunks, _alatom_cases,
+             'every string of length <= 4 (quick) / 6 (thorough) over ~ 1 , U+0663 e . a e-acute Z glued to a target, a role, a concept and a conjunction '
+             'target: where an alignment ends, with a non-ASCII decimal digit in the alphabet'),
+        Enum('odd-first-characters', _first_chunks, _first_cases,
+             'U+FEFF, NBSP, U+3000, U+2028, U+0085, U+001C, U+200B, U+FFFE, NUL, VT, FF, TAB, CR, U+0663 at the very start of the input, at its end, '
+             'at the start of a later line, before ")" and instead of a blank, for 11 small texts; each also with the penman logger at DEBUG'),
+        Enum('debug-logging', _debug_chunks, _debug_cases,
+             'all sequences of <= 4 tokens (graph vocabulary) and <= 3 tokens (conjunction vocabulary) with the penman logger at DEBUG'),
         Enum('repetitions', _repeat_chunks, _repeat_cases,
              'small units (graphs, empty nodes, comments, conjunction items) repeated 2..1025 times in one input: counters, caches and limits'),
         Hyp('random', _random, 7000, 300000),
